@@ -1054,3 +1054,75 @@ func TestSigHeaderFaults(t *testing.T) {
 		})
 	})
 }
+
+// TestConcurrentClients: two or three client tasks, each reading its own
+// (possibly attacked) file from a chunked CDN and verifying it, run under the
+// cooperative scheduler: a task is parked at every Read and at every
+// certificate fetch. Each acceptance is judged as in sxg/tamper.
+func TestConcurrentClients(t *testing.T) {
+	rapid.Check(t, func(t *rapid.T) {
+		core.Run(t, "sxg/concurrent-clients", func(c *core.Ctx) {
+			n := c.Int("nclients", 2, 3)
+			w := publish(c, n)
+			type client struct {
+				l      *gen.LSXG
+				data   []byte
+				e      *signedexchange.Exchange
+				ok     bool
+				pl     []byte
+				tm     time.Time
+				served []byte
+				what   string
+			}
+			cl := make([]*client, n)
+			var tasks []func(yield func())
+			for i := 0; i < n; i++ {
+				x := &client{l: w.pubs[i], data: w.pubs[i].File, what: "untouched"}
+				if c.Chance("attacked", 1, 2) {
+					x.data = c.CorruptBlob("blob", x.data, nil)
+					x.what = "storage fault"
+				}
+				x.tm = clientTime(c, x.l)
+				cl[i] = x
+				sr := c.NewReader(fmt.Sprintf("cdn%d", i), x.data, core.ReaderPlan{ErrAt: -1, Mode: 1, Chunk: c.PickInt("chunk", 3, 16, 100, 4096)})
+				tasks = append(tasks, func(yield func()) {
+					sr.OnCall = yield
+					e, err := signedexchange.ReadExchange(sr)
+					if err != nil {
+						return
+					}
+					x.e = e
+					fetch := func(u string) ([]byte, error) {
+						yield()
+						b, ok := w.net.blobs[u]
+						if !ok {
+							return nil, errors.New("sim: 404")
+						}
+						x.served = b
+						return b, nil
+					}
+					x.pl, x.ok = e.Verify(x.tm, fetch, quiet)
+				})
+			}
+			sched, panics := c.RunTasks("sched", tasks)
+			c.Event("schedule %s", sched)
+			for i, p := range panics {
+				if p != nil && c.Oracle("C10", "C01") {
+					c.Violation("panic", "signedexchange(concurrent)", "client task %d panicked under schedule %s: %v", i, sched, p)
+				}
+			}
+			if c.Oracle("C01") {
+				for i, x := range cl {
+					if x.ok {
+						w.net.served = x.served
+						judgeAccept(c, w, x.e, x.pl, x.tm, fmt.Sprintf("%s, client %d of %d, schedule %s", x.what, i, n, sched))
+					} else if x.what == "untouched" && inWindow(x.tm, x.l) && x.e != nil {
+						c.Violation("honest-rejected", "Exchange.Verify", "client %d: an untouched exchange was rejected inside its window under schedule %s", i, sched)
+					}
+				}
+			}
+			c.Outcome("nt:done")
+			c.Sig("%s", sched)
+		})
+	})
+}
